@@ -484,6 +484,45 @@ def r6(rep, prog):
                       "SegmentManager::commit does not receive (by move) the entries returned by purge_deletes", site=site(cb, b))
 
 
+def _storage_root(body, cur, hops=10):
+    """the local a value lives in, seen through `&x`, moves, and a trip through a tuple / struct that is built and taken
+    apart again (`let (a, b) = helper();` after the helper was inlined: `t = (a0, b0); r = move t; a = move r.0`)"""
+    defs = body.defs()
+    for _ in range(hops):
+        if cur is None:
+            return cur
+        ds = defs.get(cur, [])
+        if not (len(ds) == 1 and ds[0][0] == "stmt" and ds[0][3].get("r") in ("ref", "use")):
+            return cur
+        st = ds[0][3]
+        pl = st.get("p") if st.get("r") == "ref" else op_place(st["o"][0])
+        if pl is None:
+            return cur
+        fs = proj_fields(pl)
+        base = place_local(pl)
+        if st.get("r") == "use" and fs and not is_bare(pl):
+            b2 = base
+            agg = None
+            for _h in range(hops):
+                d2 = defs.get(b2, [])
+                if len(d2) == 1 and d2[0][0] == "stmt":
+                    s2 = d2[0][3]
+                    if s2.get("r") == "agg" and s2.get("ak") in ("tuple", "adt"):
+                        agg = s2
+                        break
+                    if s2.get("r") == "use" and op_place(s2["o"][0]) is not None and is_bare(op_place(s2["o"][0])):
+                        b2 = place_local(op_place(s2["o"][0]))
+                        continue
+                break
+            if agg is not None and len(fs) == 1 and fs[0][0] < len(agg.get("o", [])):
+                nxt = op_local(agg["o"][fs[0][0]])
+                if nxt is not None:
+                    cur = nxt
+                    continue
+        cur = base
+    return cur
+
+
 def r7(rep, prog):
     R = "C10-R7"
     fid = MDI + "garbage_collect"
@@ -510,17 +549,7 @@ def r7(rep, prog):
                 tr = trace_back(body, op_local(t["args"][0])) if op_local(t["args"][0]) is not None else []
                 for l_ in range(len(body.locals)):
                     pass
-                root = op_local(t["args"][0])
-                for _ in range(6):
-                    ds = body.defs().get(root, [])
-                    if len(ds) == 1 and ds[0][0] == "stmt" and ds[0][3].get("r") in ("ref", "use") and (ds[0][3].get("p") is not None or ds[0][3].get("o")):
-                        pl = ds[0][3].get("p") if ds[0][3].get("r") == "ref" else op_place(ds[0][3]["o"][0])
-                        if pl is None:
-                            break
-                        root = place_local(pl)
-                    else:
-                        break
-                filled.add(root)
+                filled.add(_storage_root(body, op_local(t["args"][0])))
         muts, bad_muts = [], []
         for bi, t in body.calls():
             f = t.get("f") or ""
@@ -550,17 +579,7 @@ def r7(rep, prog):
                 for bj, tj in body.calls():
                     fj = tj.get("f") or ""
                     if re.search(r"IntoIterator::into_iter$|<impl \[T\]>::iter$|HashSet::<T, S(, A)?>::iter$", fj) and tj.get("args"):
-                        r0 = op_local(tj["args"][0])
-                        cur = r0
-                        for _ in range(6):
-                            ds = body.defs().get(cur, [])
-                            if len(ds) == 1 and ds[0][0] == "stmt" and ds[0][3].get("r") in ("ref", "use"):
-                                pl = ds[0][3].get("p") if ds[0][3].get("r") == "ref" else op_place(ds[0][3]["o"][0])
-                                if pl is None:
-                                    break
-                                cur = place_local(pl)
-                            else:
-                                break
+                        cur = _storage_root(body, op_local(tj["args"][0]))
                         if cur in filled and bi in body.reachable(tuple(body.succ(bj))):
                             it_ok = True
                 (muts if it_ok else bad_muts).append((bi, "remove", it_ok))
@@ -572,16 +591,7 @@ def r7(rep, prog):
                     if s_[0] == "agg" and isinstance(s_[1], str) and "{closure" in s_[1]:
                         st_ = body.stmts(s_[2])[s_[3]]
                         for o in st_.get("o", []):
-                            cur = op_local(o)
-                            for _ in range(6):
-                                ds = body.defs().get(cur, []) if cur is not None else []
-                                if len(ds) == 1 and ds[0][0] == "stmt" and ds[0][3].get("r") in ("ref", "use"):
-                                    pl = ds[0][3].get("p") if ds[0][3].get("r") == "ref" else op_place(ds[0][3]["o"][0])
-                                    if pl is None:
-                                        break
-                                    cur = place_local(pl)
-                                else:
-                                    break
+                            cur = _storage_root(body, op_local(o))
                             if cur in filled:
                                 captured_filled = True
                 (muts if captured_filled else bad_muts).append((bi, "retain", captured_filled))
